@@ -751,6 +751,18 @@ structure HdrState where
   rows : List (List (Int × Int) × Rat)   -- finished rows (reverse order): intervals, amplitude
 deriving Repr, DecidableEq, Inhabited
 
+/-- serve the open fractions at one level: `m = fractions_desired[fi:] <= fraction_seen`, then the first
+`np.sum(m)` open fractions get the current intervals `ind` and their interpolated amplitude -/
+def hdrServe (bufSize : Nat) (ind : List Nat) (topSum : Rat) (j : Nat) (low fractionSeen dj : Rat) (st : HdrState) : HdrState :=
+  let nPass := (st.open_.filter fun f => decide (f ≤ fractionSeen)).length     -- np.sum(m)
+  let st := { st with lowest := some dj }
+  if nPass = 0 then st
+  else
+    let newRows := (st.open_.take nPass).map fun f =>
+      let g := f / fractionSeen
+      (hdrRow bufSize ind, (1 - g) * topSum / (j : Rat) + g * low)
+    { st with open_ := st.open_.drop nPass, rows := newRows.reverse ++ st.rows }
+
 /-- body of `for j in range(1, len(data))` -/
 def hdrStep (data : List Rat) (order : List Nat) (areaTot : Rat) (upper : Bool) (bufSize : Nat)
     (st : HdrState) (j : Nat) : HdrState :=
@@ -762,15 +774,7 @@ def hdrStep (data : List Rat) (order : List Nat) (areaTot : Rat) (upper : Bool) 
       let low : Rat := if upper then dj else 0         -- `lowest_sample_seen *= int(only_upper_part)`
       let top := (order.take j).map fun k => data.getD k 0
       let fractionSeen := (top.map (· - low)).sum / areaTot
-      let nPass := (st.open_.filter fun f => decide (f ≤ fractionSeen)).length     -- np.sum(m)
-      let st := { st with lowest := some dj }
-      if nPass = 0 then st
-      else
-        let ind := sortNat (order.take j)
-        let newRows := (st.open_.take nPass).map fun f =>
-          let g := f / fractionSeen
-          (hdrRow bufSize ind, (1 - g) * top.sum / (j : Rat) + g * low)
-        { st with open_ := st.open_.drop nPass, rows := newRows.reverse ++ st.rows }
+      hdrServe bufSize (sortNat (order.take j)) top.sum j low fractionSeen dj st
 
 /-- `strax.highest_density_region(data, fractions_desired, only_upper_part, _buffer_size)`:
 per desired fraction the list of `_buffer_size` interval slots and the amplitude. Note that the
